@@ -138,7 +138,7 @@ func c22RunOne(c c22Case) c22Obs {
 			lang.PrivateFunctions.Define(n, nil, []rune(`out "P:`+n+`:$PARAMS"`), defRef)
 		}
 		if e.Alias != nil {
-			al := []string{c22Names[c11yMod(e.Alias.T, 4)]}
+			al := []string{c22Names[c22Mod(e.Alias.T, 4)]}
 			for _, a := range e.Alias.Args {
 				al = append(al, c22ArgStr(a))
 			}
@@ -180,7 +180,7 @@ func c22RunOne(c c22Case) c22Obs {
 	_ = lang.ShellProcess.Config.Set("shell", "auto-cd", c.AutoCd, nil)
 
 	// ---- the command
-	parts := []string{c22Names[c11yMod(c.Name, 4)]}
+	parts := []string{c22Names[c22Mod(c.Name, 4)]}
 	for _, a := range c.Args {
 		parts = append(parts, c22ArgStr(a))
 	}
@@ -239,7 +239,7 @@ func c22RunOne(c c22Case) c22Obs {
 	return c22Obs{Kind: "other", Detail: "nothing ran, exit 0: " + string(stdout)}
 }
 
-func c11yMod(a, n int) int {
+func c22Mod(a, n int) int {
 	if a < 0 {
 		a = -a
 	}
@@ -358,7 +358,7 @@ func c22EntryCoq(i int, e c22Entry) string {
 		for j, a := range e.Alias.Args {
 			as[j] = coqlit.N(uint64(a))
 		}
-		al = "(Some (" + coqlit.N(uint64(c11yMod(e.Alias.T, 4))) + ", " + coqlit.List(as) + "))"
+		al = "(Some (" + coqlit.N(uint64(c22Mod(e.Alias.T, 4))) + ", " + coqlit.List(as) + "))"
 	}
 	builtin := e.Builtin
 	if i == 3 {
@@ -420,9 +420,9 @@ func (c22) Run(raw json.RawMessage) Result {
 	default:
 		obs = "OOther"
 	}
-	coq := coqlit.Record("c_tables", coqlit.List(es), "c_ctx", ctx, "c_name", coqlit.N(uint64(c11yMod(c.Name, 4))),
+	coq := coqlit.Record("c_tables", coqlit.List(es), "c_ctx", ctx, "c_name", coqlit.N(uint64(c22Mod(c.Name, 4))),
 		"c_args", coqlit.List(as), "c_obs", obs)
-	e0 := c.Entries[c11yMod(c.Name, 4)]
+	e0 := c.Entries[c22Mod(c.Name, 4)]
 	nkinds := 0
 	for _, b := range []bool{e0.Priv, e0.Alias != nil, e0.Func, e0.Builtin, e0.Ext} {
 		if b {
@@ -431,9 +431,9 @@ func (c22) Run(raw json.RawMessage) Result {
 	}
 	class := "noalias"
 	if e0.Alias != nil {
-		t := c11yMod(e0.Alias.T, 4)
+		t := c22Mod(e0.Alias.T, 4)
 		switch {
-		case t == c11yMod(c.Name, 4):
+		case t == c22Mod(c.Name, 4):
 			class = "alias-self"
 		case c.Entries[t].Alias != nil:
 			class = "alias-chain"
